@@ -18,28 +18,70 @@ def sym_range(ex, sw, st):
     return VStruct("SymRange", [VInt(lo, "K"), VInt(hi, "K")])
 
 
+def tx_field(ex, name):
+    """index of a Transaction field BY NAME in the current source (fields may be added or reordered)"""
+    return ex.si.structs["Transaction"].index(name)
+
+
+def _run_ok(ex, st, fn, args, what):
+    """run fn to completion without faults and return the single state in which it returned Ok / ()"""
+    from exec import Unsupported
+    ex.start(st, fn, args)
+    outs = ex.run(st)
+    good = []
+    for f in outs:
+        if f.status == "unsupported":
+            raise Unsupported(f"{what}: {f.note}")
+        if f.status == "returned" and (not isinstance(f.retval, VEnum) or f.retval.concrete() == 0):
+            good.append(f)
+    if len(good) != 1:
+        raise Unsupported(f"{what}: expected exactly one successful path, got {len(good)} of {len(outs)}")
+    good[0].status = "running"
+    return good[0]
+
+
+def real_tx(ex, sw, st, key, content_id=(), pending=True):
+    """A Transaction as the REAL code builds it: Transaction::new(cas, key) and (pending) one
+    Transaction::write(chunk) run from their MIR, so that every field - also one this framework has never
+    heard of - holds what the real code puts there.  The chunk is the abstract content ('content', id).
+    -> (transaction value, state to continue from, size term)"""
+    saved = st.faults_left
+    st.faults_left = 0
+    ntrace = len(st.trace)
+    f = _run_ok(ex, st, find_fn(ex, "::new", "transaction::"), [sw.cas_ref, VSym(key, "K")], "Transaction::new")
+    tx = f.retval.payloads[0][0]
+    if pending:
+        txref = VRef(f.alloc(tx))
+        chunk = VOpaque("content", content_id)
+        f = _run_ok(ex, f, find_fn(ex, "::write", "transaction::"), [txref, VRef(f.alloc(chunk))], "Transaction::write")
+        tx = f.load(txref)
+    # the set-up (creating and filling the staging file) is not part of the operation under test
+    del f.trace[ntrace:]
+    f.faults_left = saved
+    f.retval = None
+    size = tx.fields[tx_field(ex, "size")]
+    return tx, f, size
+
+
 def mk_tx(ex, sw, st, pending=True):
-    io = sw.io
-    tmp = VStruct("NamedTempFile", [VOpaque("tmpid", 1)])
-    st.meta["ntmp"] = 1
-    f = io.new_file(st, ("staging", 1), write=True, reopen=True)
-    bw = VStruct("BufWriter", [f, VVec([VOpaque("chunk", ("content",))] if pending else [])])
+    """-> (transaction, state).  The content's hash (what finalize() will return) and the C18 / environment
+    preconditions: a hash determines its content, hence its length; all distinct contents fit in u64 bytes"""
     k = sw.sym_key(st, "op_key")
     sw.op_key = k
+    tx, st, size = real_tx(ex, sw, st, k, (), pending)
     sz = ex.new_int(st, "u64", "tx_size")
+    st.pc.append(sz.t == size.t)
+    tx.fields[tx_field(ex, "size")] = sz
     sw.op_size = sz.t
-    # the content's hash (what finalize() will return) and the C18 / environment preconditions:
-    # a hash determines its content, hence its length; all distinct contents fit in u64 bytes
     h = sw.sym_hash(st, "op_hash")
     st.meta["content-hash"] = h
-    st.meta["hashed-content"] = (("content",),)
+    st.meta["hashed-content"] = (("content", ()),)
     sw.op_hash = h
     w = sw.iw
     for i in range(w.U):
         st.pc.append(z3.Implies(z3.And(w.pk[i], w.hk[i] == h), w.sk[i] == sz.t))
     st.pc.append(w.total + sz.t <= U64)
-    tx = VStruct("Transaction", [tmp, sw.cas_ref, bw, VOpaque("hasher", (("content",),)), sz, VSym(k, "K")])
-    return tx
+    return tx, st
 
 
 def orphan_stats(ex, sw, st, n=1):
@@ -85,11 +127,11 @@ def open_new(ex, sw, st):
 
 ENTRY = {
     "open.new": open_new,
-    "put.finish": lambda ex, sw, st: (find_fn(ex, "::commit", "transaction::"), [mk_tx(ex, sw, st)]),
+    "put.finish": lambda ex, sw, st: (lambda t: (find_fn(ex, "::commit", "transaction::"), [t[0]], t[1]))(mk_tx(ex, sw, st)),
     "put.new": lambda ex, sw, st: (find_fn(ex, "::new", "transaction::"), [sw.cas_ref, VSym(sw.sym_key(st, "op_key"), "K")]),
-    "tx.write": lambda ex, sw, st: (find_fn(ex, "::write", "transaction::"),
-                                    [VRef(st.alloc(mk_tx(ex, sw, st))), VRef(st.alloc(VOpaque("bytes", ("chunk",))))]),
-    "tx.drop": lambda ex, sw, st: ("drop", [mk_tx(ex, sw, st)]),
+    "tx.write": lambda ex, sw, st: (lambda t: (find_fn(ex, "::write", "transaction::"),
+                                               [VRef(t[1].alloc(t[0])), VRef(t[1].alloc(VOpaque("bytes", ("chunk",))))], t[1]))(mk_tx(ex, sw, st)),
+    "tx.drop": lambda ex, sw, st: (lambda t: ("drop", [t[0]], t[1]))(mk_tx(ex, sw, st)),
     "get": lambda ex, sw, st: (find_fn(ex, "::get", "cas::"), [sw.cas_ref, keyref(sw, st)]),
     "get_size": lambda ex, sw, st: (find_fn(ex, "::get_size", "cas::"), [sw.cas_ref, keyref(sw, st)]),
     "get_reader": lambda ex, sw, st: (find_fn(ex, "::get_reader", "cas::"), [sw.cas_ref, keyref(sw, st)]),
@@ -122,7 +164,10 @@ def explore(ex, name, U=2, HU=2, faults=0, spill=False, **world):
 
 
 def _explore(ex, name, sw, st):
-    fn, args = ENTRY[name](ex, sw, st)
+    ent = ENTRY[name](ex, sw, st)
+    fn, args = ent[0], ent[1]
+    if len(ent) > 2:
+        st = ent[2]       # the entry point's set-up ran real code: continue from the state it produced
     if fn == "drop":
         # dropping a value: run the drop glue (Drop impls, field drops) on it
         finals = []
